@@ -306,6 +306,12 @@ func (self *linkedPairs) growTailLength(l int) {
 	self.tail = tmp
 }
 
+// removed reports whether the slot is the zero pair left behind by Unset or removePair,
+// every pair built by NewPair carries a non-zero hash
+func (self *Pair) removed() bool {
+	return self.hash == 0 && self.Key == "" && self.Value.loadt() == _V_NONE
+}
+
 // linear search
 func (self *linkedPairs) Get(key string) (*Pair, int) {
 	if self.index != nil {
@@ -324,7 +330,7 @@ func (self *linkedPairs) Get(key string) (*Pair, int) {
 	}
 linear_search:
 	for i := 0; i < self.size; i++ {
-		if n := self.At(i); n.Key == key {
+		if n := self.At(i); n.Key == key && !n.removed() {
 			return n, i
 		}
 	}
